@@ -313,6 +313,8 @@ AST_TO_REVERSE = {
     node_cls: _NEG_OPERATOR_TO_AST[op]
     for node_cls, (op, _, _) in COMPARATOR_TO_OPERATOR.items()
 }
+# "a < b" is the same comparison as "b > a"
+AST_TO_MIRROR = {ast.Lt: ast.Gt, ast.LtE: ast.GtE, ast.Gt: ast.Lt, ast.GtE: ast.LtE}
 
 SAFE_DECORATORS_FOR_ARGSPEC_TO_RETVAL = [KnownValue(asynq.asynq), KnownValue(property)]
 if sys.version_info < (3, 11):
@@ -3560,8 +3562,10 @@ class NameCheckVisitor(node_visitor.ReplacingNodeVisitor):
         elif isinstance(rhs_constraint, PredicateProvider) and isinstance(
             lhs, KnownValue
         ):
+            # The constant is on the left: "2 < len(x)" means "len(x) > 2".
+            mirrored_op = AST_TO_MIRROR.get(type(op))
             constraint = self._constraint_from_predicate_provider(
-                rhs_constraint, lhs.val, op
+                rhs_constraint, lhs.val, op if mirrored_op is None else mirrored_op()
             )
         elif isinstance(rhs, KnownValue):
             constraint = self._constraint_from_compare_op(
@@ -3632,6 +3636,9 @@ class NameCheckVisitor(node_visitor.ReplacingNodeVisitor):
             return Constraint(varname, ConstraintType.predicate, positive, predicate)
         else:
             positive_operator, negative_operator, ext = COMPARATOR_TO_OPERATOR[type(op)]
+            if not is_right and type(op) in AST_TO_MIRROR:
+                # "2 < x" bounds x like "x > 2"
+                _, _, ext = COMPARATOR_TO_OPERATOR[AST_TO_MIRROR[type(op)]]
 
             def predicate_func(value: Value, positive: bool) -> Optional[Value]:
                 op = positive_operator if positive else negative_operator
